@@ -2,6 +2,7 @@ package jschema
 
 import (
 	"github.com/jsightapi/jsight-schema-core/zzverif"
+	"github.com/jsightapi/jsight-schema-core/zzverif/zzdiag"
 )
 
 func vLetter(name string) byte { return zzverif.OneOf(name, "abc") }
@@ -50,6 +51,17 @@ var vRoots = []string{`@a`, `{"r": @a}`, `[@a, @b]`, `{@a: 1}`, `{"r": 1 // {typ
 func VerifC02_TypeProjects() {
 	zzverif.Expect("accepted", "rejected")
 	zzverif.BoundIsViolation()
+	vTypeProjects(false)
+}
+
+// VerifC16_TypeProjects: the same projects; every error any operation returns
+// (AddType included) is a well-formed diagnostic.
+func VerifC16_TypeProjects() {
+	zzverif.Expect("accepted", "rejected")
+	vTypeProjects(true)
+}
+
+func vTypeProjects(diag bool) {
 	nTypes := zzverif.Bound("types", 2, 3)
 	kinds := zzverif.Bound("kinds", 10, 7)
 	root := New("root", vRoots[zzverif.IntRange("root", 0, len(vRoots)-1)])
@@ -61,15 +73,35 @@ func VerifC02_TypeProjects() {
 		if nTypes == 2 {
 			y = vLetter("y")
 		}
-		_ = root.AddType(names[i], New(names[i], vTypeBody(k, x, y)))
+		body := vTypeBody(k, x, y)
+		err := root.AddType(names[i], New(names[i], body))
+		if diag {
+			zzdiag.Diag(err, 1<<30)
+		}
 	}
-	_, _ = root.Len()
-	if root.Check() == nil {
+	_, err := root.Len()
+	if diag {
+		zzdiag.Diag(err, 1<<30)
+	}
+	err = root.Check()
+	if diag {
+		zzdiag.Diag(err, 1<<30)
+	}
+	if err == nil {
 		zzverif.Reach("accepted")
 	} else {
 		zzverif.Reach("rejected")
 	}
-	_, _ = root.Example()
-	_, _ = root.GetAST()
-	_, _ = root.UsedUserTypes()
+	_, err = root.Example()
+	if diag {
+		zzdiag.Diag(err, 1<<30)
+	}
+	_, err = root.GetAST()
+	if diag {
+		zzdiag.Diag(err, 1<<30)
+	}
+	_, err = root.UsedUserTypes()
+	if diag {
+		zzdiag.Diag(err, 1<<30)
+	}
 }
